@@ -1,0 +1,39 @@
+package tax_test
+
+import (
+	"testing"
+
+	"github.com/invopop/gobl/addons/br/nfse"
+	"github.com/invopop/gobl/addons/mx/cfdi"
+	"github.com/invopop/gobl/tax"
+	"github.com/stretchr/testify/assert"
+)
+
+func TestExtValidationValuesAreCodes(t *testing.T) {
+	t.Run("definition without values or pattern", func(t *testing.T) {
+		em := tax.Extensions{cfdi.ExtKeyProdServ: "01010101"}
+		assert.NoError(t, em.Validate())
+
+		em = tax.Extensions{cfdi.ExtKeyProdServ: "-0.25"}
+		assert.ErrorContains(t, em.Validate(), "mx-cfdi-prod-serv: must be in a valid format")
+
+		em = tax.Extensions{cfdi.ExtKeyProdServ: "0101 "}
+		assert.ErrorContains(t, em.Validate(), "mx-cfdi-prod-serv: must be in a valid format")
+
+		em = tax.Extensions{cfdi.ExtKeyProdServ: "012345678901234567890123456789012"}
+		assert.ErrorContains(t, em.Validate(), "mx-cfdi-prod-serv: the length must be between 1 and 32")
+
+		em = tax.Extensions{cfdi.ExtKeyProdServ: ""}
+		assert.ErrorContains(t, em.Validate(), "mx-cfdi-prod-serv: cannot be blank")
+	})
+	t.Run("definition with a pattern wider than a code", func(t *testing.T) {
+		em := tax.Extensions{nfse.ExtKeyService: "14.01"}
+		assert.NoError(t, em.Validate())
+
+		em = tax.Extensions{nfse.ExtKeyCNAE: "62 01 5 01"}
+		assert.NoError(t, em.Validate())
+
+		em = tax.Extensions{nfse.ExtKeyCNAE: "62\t01\t5\t01"}
+		assert.ErrorContains(t, em.Validate(), "br-nfse-cnae: must be in a valid format")
+	})
+}
